@@ -190,6 +190,7 @@ def run(tier):
               "PROPERTY Independence\nINVARIANT Export\nCHECK_DEADLOCK FALSE\n" % (maxops, ",".join(map(str, protos))),
               on_export=seqs.append)
     tlc_ok(res, "AstStore")
+    seqs.sort(key=lambda q: json.dumps(q["ops"]))
     if res.violated:
         raise common.MachineryError("AstStore: %s violated" % res.violated)
     ctx.add_tlc(res, "AstStore: all action sequences len<=%d, protocols %s" % (maxops, protos))
